@@ -58,6 +58,10 @@ func departurePathsSkipping(fn *ssa.Function, l *RangeLoop, fAll, fHealthy, fTre
 				all = all || removesFrom(in, fAll)
 				healthy = healthy || removesFrom(in, fHealthy)
 				trend = trend || isMapDeleteOn(in, fTrend)
+				if ci, isC := in.(ssa.CallInstruction); isC {
+					a, h, t := stateHelperEffects(ci, l, fAll, fHealthy, fTrend, "Remove")
+					all, healthy, trend = all || a, healthy || h, trend || t
+				}
 			}
 		}
 		for _, e := range absAll {
